@@ -443,5 +443,10 @@ func (h *livenessHelper) doWhile(r livenesses, n *a.While, depth uint32) error {
 	}
 
 	copy(r, l.after)
+	// Strong is sticky. Without this, a variable that is strong on reaching a
+	// loop with no exit (a "while true" without a reachable break or return)
+	// is forgotten: r becomes l.after, which stays all-none, and nothing else
+	// carries l.before's strongs to h.final.
+	h.final.reconcile(l.before)
 	return nil
 }
